@@ -24,6 +24,9 @@ CLAIMED = {
  'C06': ('bounded exhaustive input enumeration on the real code (integer/real/datetime lattices, every constructor form, every (value, type) pair of the typed setters)',
          'Integer lattice x 8 types x all constructor call forms and bases; 71 value atoms x 16 types x 9 setter seams (cimvalue and the constructors/value setters of CIMProperty, CIMQualifier, CIMParameter, CIMQualifierDeclaration); the CIMDateTime field-boundary lattice x precision patterns x UTC offsets (all 2000 offsets on a reduced lattice in quick, on the full lattice in thorough), every string one edit away from a legal one, datetime/timedelta inputs; every exponent x 12 mantissa patterns of float32 and float64 through atomic_to_cim_xml and the parser in three seams. Oracles follow the statement: range, exact stored type or TypeError/ValueError, 25-character DSP0004 string that re-parses to an equal object (independent DSP0004 reader), bit-exact real round trip with INF/-INF/NaN spelling.',
          'trusts mc/refmodels/dsp0004_datetime.py; Real32 values are compared at float32 precision', '§5 C06'),
+ 'C02': ('bounded exhaustive deviation enumeration (every single deviation of valid response templates at every site) on the real client code through a scripted transport adapter',
+         'For each of the 41 operation methods 1-3 valid responses are produced by the CIM-XML facade over a mock repository; every single deviation from a finite mutation alphabet is applied at every site (each element: delete/duplicate/move/rename to every DTD element name/insert every DTD element at every child position; each attribute: delete/add/set to 19 values; each text node: 26 replacements; every prefix truncation; byte replacement at every offset; whole-body alternatives; HTTP status/header variants; 29 transport exceptions) and delivered to the operation. Oracle: returns, or raises a pywbem.Error subclass, within the watchdog; parse errors carry request and response data. Exhaustive for single deviations.',
+         'single deviations only (pairs within one element in the thorough tier); termination = 5 s watchdog; trusts the facade templates (each is checked to be accepted by pywbem)', '§5 C02'),
 }
 NOT_YET = 'check not built yet in this round (planned, see DESIGN.md §5); not claimed until it exists'
 
